@@ -215,3 +215,87 @@ def replay(case):
     if results != expected:
         return 'two threads: calls returned %r, alone they return %r' % (results, expected)
     return None
+
+
+# ---- first use: tables, caches and imports that are filled lazily ---------------------------
+# Every schedule runs in a FRESH interpreter (nothing has been decoded, encoded or parsed in it
+# before the threads start), so that a lazily initialised table is seen half-filled if that is
+# possible at all.
+
+FIRST_USE = {
+    'C02': {'first-use/pitchwheel+sysex': "[lambda: M.from_bytes([0xe5, 1, 2]), lambda: M.from_bytes([0xef, 0x7f, 0x7f]), "
+                                          "lambda: M.from_bytes([0xf0, 1, 0xf7])]",
+            'first-use/songpos+quarter_frame': "[lambda: M.from_bytes([0xf2, 1, 2]), lambda: M.from_bytes([0xf1, 0x35]), "
+                                               "lambda: M.from_bytes([0xe0, 0, 0x41])]"},
+    'C01': {'first-use/encode': "[lambda: M('pitchwheel', pitch=-1).bytes(), lambda: M('songpos', pos=300).bytes(), "
+                                "lambda: M('quarter_frame', frame_type=3, frame_value=5).bytes()]"},
+    'C14': {'first-use/text': "[lambda: M.from_str('pitchwheel channel=2 pitch=-5 time=1.5'), "
+                              "lambda: str(M('sysex', data=(1, 2))), lambda: M.from_str('sysex data=(1,2,3)')]"},
+    'C09': {'first-use/meta': "[lambda: MM.from_bytes([0xff, 0x59, 2, 0xfd, 1]), lambda: MM('time_signature', denominator=8).bytes(), "
+                              "lambda: MM.from_bytes([0xff, 0x51, 3, 1, 2, 3])]"},
+}
+
+_CHILD = r'''
+import json, sys
+sys.path.insert(0, %(verif)r)
+from vf import core, conc
+mido = core.import_mido()
+M, MM = mido.Message, mido.MetaMessage
+thunks = %(thunks)s
+res, ch = conc.run_schedule(thunks, %(prefix)r, conc.mido_files())
+print('RESULT ' + json.dumps({'results': res, 'choices': [[c[0], list(c[1]), c[2]] for c in ch]}))
+'''
+
+
+def _fresh_run(thunks_src, prefix):
+    import json
+    import subprocess
+    import sys
+    code = _CHILD % {'verif': os.path.dirname(os.path.dirname(os.path.abspath(__file__))), 'thunks': thunks_src,
+                     'prefix': prefix}
+    env = dict(os.environ, PYTHONHASHSEED='0')
+    r = subprocess.run([sys.executable, '-B', '-c', code], stdout=subprocess.PIPE, stderr=subprocess.PIPE, text=True,
+                       env=env, timeout=300)
+    for line in r.stdout.splitlines():
+        if line.startswith('RESULT '):
+            return json.loads(line[7:])
+    return {'results': ['child failed: ' + (r.stderr.strip().splitlines() or ['?'])[-1][:200]], 'choices': []}
+
+
+def first_use(ctx, pid, limit=40):
+    import json
+    from concurrent.futures import ThreadPoolExecutor
+    mido = core.import_mido()
+    M, MM = mido.Message, mido.MetaMessage
+    for name, src in sorted(FIRST_USE.get(pid, {}).items()):
+        expected = json.loads(json.dumps([call(th) for th in eval(src, {'M': M, 'MM': MM})]))
+        root = _fresh_run(src, [])
+        ch = root['choices']
+        sched = [c[0] for c in ch]
+        positions = list(range(len(ch)))
+        step = max(1, -(-len(positions) * 2 // limit))
+        prefixes = [[]]
+        for i in positions[::step]:
+            chosen, runnable, last = ch[i]
+            for alt in runnable:
+                if alt != chosen and last in runnable:
+                    prefixes.append(sched[:i] + [alt])
+        with ThreadPoolExecutor(core.NCPU) as ex:
+            outs = list(ex.map(lambda p: (p, root if not p else _fresh_run(src, p)), prefixes))
+        ctx.replayed += len(outs)
+        ctx.count('first_use_schedules', len(outs))
+        bad = [(p, o['results']) for p, o in outs if o['results'] != expected]
+        for p, res in bad[:2]:
+            ctx.violation('reentrancy/%s:%s' % (pid, name), {'kind': 'first_use', 'pid': pid, 'name': name, 'schedule': p},
+                          'in a fresh process, two threads, schedule %r: calls returned %r, alone they return %r' % (
+                              p[:50], res, expected))
+
+
+def replay_first_use(case):
+    import json
+    mido = core.import_mido()
+    M, MM = mido.Message, mido.MetaMessage
+    src = FIRST_USE[case['pid']][case['name']]
+    expected = json.loads(json.dumps([call(th) for th in eval(src, {'M': M, 'MM': MM})]))
+    got = _fresh_run(src, case['schedule'])['results']
+    return None if got == expected else 'fresh process: calls returned %r, alone they return %r' % (got, expected)
